@@ -469,7 +469,7 @@ async fn run_t<TC: ModelCfg>(spec: Spec, do_c06: bool, do_c07: bool) -> Out {
         if do_c07 {
             let all: Vec<(u64, Vec<u8>, u64)> = vers.iter().rev().map(|v| (v.version, v.value.clone(), v.epoch)).collect();
             let k = all.len();
-            let mv = rng.below(14);
+            let mv = rng.below(15);
             match mv {
                 0 | 1 => {
                     // hide the newest j versions; absences that cannot be shown honestly are forged at every anchor
@@ -538,6 +538,55 @@ async fn run_t<TC: ModelCfg>(spec: Spec, do_c06: bool, do_c07: bool) -> Out {
                             }
                             let hp = if start == 1 { None } else { Some(entries.len()) };
                             judge_history::<TC>(&mut out, &model, &pk, cur, root, &l, p, hp, "newest_versions_hidden");
+                        }
+                        // ... or the absences that cannot be shown are simply left out: both future-marker lists
+                        // shortened consistently (only the provable ones kept / a prefix kept / none at all)
+                        for variant in 0..3 {
+                            let mut p = base.clone();
+                            p.future_marker_vrf_proofs.clear();
+                            p.non_existence_of_future_marker_proofs.clear();
+                            for (fi, v) in future.iter().enumerate() {
+                                let (fv, fl) = forge.vrf(&l, true, *v);
+                                let keep = match variant {
+                                    0 => forge.nonmembership(&fl).is_some(),
+                                    1 => fi < future.len() / 2 && forge.nonmembership(&fl).is_some(),
+                                    _ => false,
+                                };
+                                if keep {
+                                    p.future_marker_vrf_proofs.push(fv);
+                                    p.non_existence_of_future_marker_proofs.push(forge.nonmembership(&fl).unwrap());
+                                }
+                            }
+                            let hp = if start == 1 { None } else { Some(entries.len()) };
+                            judge_history::<TC>(&mut out, &model, &pk, cur, root, &l, p, hp, "newest_versions_hidden_markers_omitted");
+                        }
+                    }
+                }
+                13 => {
+                    // a MostRecent slice whose past-marker lists are shortened consistently (or emptied)
+                    if k < 3 {
+                        continue;
+                    }
+                    let n = rng.range(1, k as u64 - 1) as usize;
+                    if let Some(mut p) = forge.history(&l, &all[..n], cur) {
+                        if p.existence_of_past_marker_proofs.is_empty() {
+                            continue;
+                        }
+                        if rng.chance(1, 2) {
+                            p.existence_of_past_marker_proofs.clear();
+                            p.past_marker_vrf_proofs.clear();
+                        } else {
+                            p.existence_of_past_marker_proofs.remove(0);
+                            p.past_marker_vrf_proofs.remove(0);
+                        }
+                        // the list itself is the true MostRecent(n) slice; what must fail is the verification of an answer
+                        // that lacks required past-marker proofs
+                        out.checks += 1;
+                        let r = akd::client::key_history_verify::<TC>(&pk, root, cur, AkdLabel(l.clone()), p, HistoryVerificationParams::Default { history_params: to_hp(Some(n)) });
+                        if r.is_ok() {
+                            out.v("c07_missing_marker_proofs_accepted", format!("label {}: a MostRecent({n}) answer with past-marker proofs omitted verifies", short(&l)), "past_markers_omitted");
+                        } else {
+                            out.p("c07_past_markers_omitted_rejected");
                         }
                     }
                 }
@@ -754,7 +803,7 @@ impl Arm for ByzHist {
     fn runs(&self, tier: Tier) -> u64 {
         match tier {
             Tier::Quick => 2500,
-            Tier::Thorough => 40_000,
+            Tier::Thorough => 20_000,
         }
     }
     fn gen(&self, rng: &mut Rng, tier: Tier, _i: u64) -> Value {
